@@ -11,6 +11,14 @@
 #define MAX(a, b)	((a) < (b) ? (b) : (a))
 #define LEN(a)		(sizeof(a) / sizeof((a)[0]))
 
+#ifdef NEATVI_VERIF
+int re_verif_depcut;		/* number of branches cut by the NDEPT limit */
+int re_verif_ndept(void)
+{
+	return NDEPT;
+}
+#endif
+
 /* regular expressions atoms */
 #define RA_CHR		'\0'	/* character literal */
 #define RA_BEG		'^'	/* string start */
@@ -573,6 +581,10 @@ void regfree(regex_t *preg)
 static int re_rec(struct regex *re, struct rstate *rs)
 {
 	struct rinst *ri = NULL;
+#ifdef NEATVI_VERIF
+	if (rs->dep >= NDEPT)
+		re_verif_depcut++;
+#endif
 	if (rs->dep >= NDEPT)
 		return 1;
 	rs->dep++;
